@@ -303,7 +303,7 @@ func checkC07(c *Ctx, r *Report) {
 				return nil, false
 			}
 			gl, ok := u.X.(*ssa.Global)
-			return ret, ok && gl.Name() == "ErrIfRangeMismatch"
+			return ret, ok && gname(gl) == "ErrIfRangeMismatch"
 		}
 		// the If-Range decision may sit in f itself or in a same-package helper f calls
 		for _, h := range pkgGroup(li, f) {
@@ -471,7 +471,7 @@ func checkC07(c *Ctx, r *Report) {
 			r.Undecided("C07.R3", "validateRange signature", c.Pos(f.Pos()), "expected (start, end, size)")
 			continue
 		}
-		st, en, sz := "$"+f.Params[0].Name(), "$"+f.Params[1].Name(), "$"+f.Params[2].Name()
+		st, en, sz := "$"+pname(f.Params[0]), "$"+pname(f.Params[1]), "$"+pname(f.Params[2])
 		classify := func(a string) string {
 			switch a {
 			case st + ">-1":
